@@ -1,0 +1,20 @@
+// Copyright © 2022-2026 Obol Labs Inc. Licensed under the terms of a Business Source License 1.1
+
+//go:build verif
+
+// Verification contracts (comments only; read by /verif/govc, never compiled into charon).
+package fetcher
+
+//@ pure core.UnsignedDataSet.Clone
+
+// Fetch: the data is fetched by the fetcher of the duty's own type, for the duty's slot and the given definitions, and
+// every subscriber receives its own clone of it, for this duty.
+//@ func (f *Fetcher) Fetch
+//@ props C18 C15
+//@ callreq f.fetchProposerData: duty.Type == core.DutyProposer && a2 == duty.Slot && a3 == defSet
+//@ callreq f.fetchAttesterData: duty.Type == core.DutyAttester && a2 == duty.Slot && a3 == defSet
+//@ callreq f.fetchAggregatorData: duty.Type == core.DutyAggregator && a2 == duty.Slot && a3 == defSet
+//@ callreq f.fetchContributionData: duty.Type == core.DutySyncContribution && a2 == duty.Slot && a3 == defSet
+//@ callreq sub: a2 == duty && res(1, unsignedSet.Clone()) == nil && a3 == res(0, unsignedSet.Clone()) && ncalls(unsignedSet.Clone) == ncalls(sub) + 1
+//@ ensures result == nil ==> ncalls(unsignedSet.Clone) == ncalls(sub)
+//@ loop 1 invariant ncalls(unsignedSet.Clone) == ncalls(sub)
